@@ -26,7 +26,7 @@ LEVEL_TEXT = ("Real end-to-end runs on random coastlines (islands, one-cell chan
 LEVEL_NOTE = "The valid region and sea cells are computed independently from the grid file (mask_rho, subgrid limits). Trusts the spied velocities as the scheme's output (their correctness is C01/C02)."
 RULE = ("case = world (mask, flow, subgrid) x run (scheme, diffusion, release, IBM schedule, layout). Non-trivial: at least one move cancelled by land or one particle killed at the "
         "open boundary or one inactive particle held; distinct by case parameters.")
-MANDATORY = ["warm_start_records_checked_against_earlier_deaths", "record_after_everybody_died", "records_checked_against_deaths", "moved", "cancelled_by_land", "killed_at_boundary", "inactive_held", "diffusion_on", "scheme_EF", "scheme_RK2", "scheme_RK4",
+MANDATORY = ["move_ending_exactly_on_a_land_cell_edge", "warm_start_records_checked_against_earlier_deaths", "record_after_everybody_died", "records_checked_against_deaths", "moved", "cancelled_by_land", "killed_at_boundary", "inactive_held", "diffusion_on", "scheme_EF", "scheme_RK2", "scheme_RK4",
              "tracker_updates", "records_checked", "release_near_rim", "subgrid", "dense", "one_cell_channel", "release_event_adding_nobody", "reversed_time"]
 ASSUMPTIONS = ["release positions in sea cells of the valid region (as the property quantifies)"]
 TIMEOUT = {"quick": 900, "thorough": 3400}
@@ -59,8 +59,16 @@ def gen_case(seed: int, idx: int) -> dict[str, Any]:
     sp = courant * dx / dt
     flow = dict(kind="jet", u=sp * np.cos(ang), v=sp * np.sin(ang), shear=float(rng.choice([0.0, 0.3])),
                 tmod=float(rng.choice([0.0, 0.3])), tfreq=1e-3)
-    return dict(idx=idx, imax=imax, jmax=jmax, subgrid=sub, land=land, mask_kind=mk, flow=flow, dt=dt, dx=dx,
-                scheme=["EF", "RK2", "RK4"][idx % 3], diffusion=float(rng.choice([0.0, 0.0, 20.0, 150.0])),
+    tie = bool(idx % 8 == 6)
+    if tie:
+        # moves that end exactly on the edge between a sea cell and a land cell (position k + 0.5): one cell per step, exactly
+        dx = 600.0
+        sub = None
+        land = [[j, 6] for j in range(jmax)]
+        mk = 0
+        flow = dict(kind="jet", u=(-1.0 if idx % 16 == 6 else 1.0) * dx / dt, v=0.0, shear=0.0, tmod=0.0, tfreq=1e-3)
+    return dict(idx=idx, tie=tie, imax=imax, jmax=jmax, subgrid=sub, land=land, mask_kind=mk, flow=flow, dt=dt, dx=dx,
+                scheme=["EF", "RK2", "RK4"][idx % 3], diffusion=0.0 if tie else float(rng.choice([0.0, 0.0, 20.0, 150.0])),
                 nsteps=int(rng.integers(12, 31)), nrel=int(rng.integers(12, 40)), layout="dense" if idx % 5 == 4 else "sparse",
                 deact_frac=float(rng.choice([0.0, 0.2])), kill_frac=float(rng.choice([0.0, 0.1])), cont=bool(rng.random() < 0.5), reversed=bool(idx % 4 == 3),
                 all_die=bool(idx % 8 == 5), warm=bool(idx % 8 == 1))
@@ -109,6 +117,9 @@ def build(case: dict[str, Any]):
             near_rim += 1
         step = 0 if (not case["cont"] or len(rows) < case["nrel"] // 2) else int(rng.integers(0, max(1, nsteps - 2)))
         rows.append([step, x, y, float(rng.uniform(0, 50))])
+    if case.get("tie"):
+        x_ = 7.5 if case["flow"]["u"] < 0 else 4.5
+        rows = [[0, x_, float(y_), 5.0] for y_ in (3.0, 4.25, 5.5, 6.75)] + [[0, x_ + (1.0 if case["flow"]["u"] < 0 else -1.0), 5.0, 5.0]]
     if case.get("all_die"):
         # a small cohort that leaves through the open boundary (or is killed by the IBM) in one and the same step, nobody left for several
         # records, then a late release: the dead must be gone from every record in between
@@ -344,6 +355,7 @@ def run_case(case: dict[str, Any], wd: Path) -> dict[str, Any]:
     sit["one_cell_channel"] = int(case["mask_kind"] in (1, 3))
     sit["release_event_adding_nobody"] = int(case["idx"] % 2 == 0)
     sit["reversed_time"] = int(bool(case.get("reversed")))
+    sit["move_ending_exactly_on_a_land_cell_edge"] = int(bool(case.get("tie")))
     if not res.ok:
         V.append(C.viol(f"run did not complete: {res.exc}", tb=res.tb[-1500:], **desc))
     else:
